@@ -18,6 +18,26 @@ Normalisations the oracle applies (and nothing else):
     they are, they must be exact;
   * which body ``get_full_text()`` prefers is README behaviour ("body_plain when present, else body_html") and is
     checked only in that documented form.
+
+Risky features (each reproduced against the unchanged tree; kept out of `clean` messages; every risky case runs
+with its control twin and is a KNOWN-FINDING only when the twin is exact):
+  mbox-attachment        any attachment in a mailbox message            -> .mbox returns no attachments
+  nested-rfc822          an attached message/rfc822                     -> inner body text reported as outer body
+  fold-at-encoded-word   Subject folded between =?..?= and plain text   -> the blank at the fold is lost (both readers)
+  date-second-60         Date: hh:mm:60 (RFC 5322 leap second)          -> the whole mailbox fails with ValueError
+
+Writer faults kept out of the workload (not reader defects): CPython 3.12's header *generator* mangles list
+separators / blanks when it refolds long non-ASCII values, so non-ASCII display names and long non-ASCII subjects
+are written by the harness's own header writer only, and every stdlib-written header block is read back
+(G.header_roundtrip_problems) before it is used.
+
+No claim is made about Outlook .msg beyond totality of the accessors on the two fixtures.
+
+Self-check (mutants of the repository, quick tier): header charset forced to latin-1 for koi8; address list
+split on ','; separator regex unanchored / case-insensitive / accepting '>From'; PDF attachment payload not
+base64-decoded; cc/bcc swapped; date offset dropped; body charset ignored; supported attachment fed the first
+attachment's bytes — all reported as VIOLATION.  "Separator regex without the year" is equivalent on the
+property's domain (mboxrd-escaped mailboxes contain no unescaped ``From `` line) and is, correctly, not reported.
 """
 from __future__ import annotations
 
@@ -465,7 +485,7 @@ def main(run, only_cases=None):
     ]
     cases = []
     if only_cases is None:
-        n_clean = run.n(300, 5000)
+        n_clean = run.n(300, 4000)
         n_risky = run.n(12, 200)
         tokstart = rng.randrange(0, 50000)
         plan = [None] * n_clean + ["nested-rfc822"] * n_risky + ["fold-at-encoded-word"] * n_risky + ["date-second-60"] * (n_risky // 2)
@@ -495,16 +515,18 @@ def main(run, only_cases=None):
     fixtures_totality(run)
 
     c = run.counters
-    run.require("eml_messages_compared", c.get("eml_messages_compared", 0), run.n(200, 5000))
-    run.require("mbox_messages_compared", c.get("mbox_messages_compared", 0), run.n(200, 5000))
-    run.require("mailboxes_judged", c.get("mailboxes_judged", 0), run.n(60, 1500))
+    run.require("eml_messages_compared", c.get("eml_messages_compared", 0), run.n(500, 8000))
+    run.require("mbox_messages_compared", c.get("mbox_messages_compared", 0), run.n(500, 8000))
+    run.require("mailboxes_judged", c.get("mailboxes_judged", 0), run.n(200, 3000))
     run.require("mailbox_sizes_seen", len([k for k in c if k.startswith("mailbox_size_")]), 9)
-    run.require("attachments_compared_bytes", c.get("attachments_compared_bytes", 0), run.n(100, 2500))
-    run.require("supported_attachment_extractions_compared", c.get("supported_attachment_extractions_compared", 0), run.n(60, 1500))
-    run.require("escaped_from_lines_in_mailboxes", c.get("escaped_from_lines_in_mailboxes", 0), run.n(50, 1000))
-    run.require("crlf_mailboxes", c.get("mailbox_eol_CRLF", 0), run.n(10, 300))
+    run.require("attachments_compared_bytes", c.get("attachments_compared_bytes", 0), run.n(500, 8000))
+    run.require("supported_attachment_extractions_compared", c.get("supported_attachment_extractions_compared", 0), run.n(400, 6000))
+    run.require("escaped_from_lines_in_mailboxes", c.get("escaped_from_lines_in_mailboxes", 0), run.n(100, 2000))
+    run.require("crlf_mailboxes", c.get("mailbox_eol_CRLF", 0), run.n(30, 500))
+    run.require("control_twins_run", c.get("control_twins_run", 0), run.n(100, 1500))
+    run.require("msg_fixtures_through_accessors", c.get("fixture_msg_results", 0), 2)
     run.require("header_charsets_seen", len([k for k in c if k.startswith("subject_charset_")]), 6)
-    run.require("carrier_cross_comparisons", c.get("carrier_cross_comparisons", 0), run.n(200, 5000))
+    run.require("carrier_cross_comparisons", c.get("carrier_cross_comparisons", 0), run.n(500, 8000))
     if run.inconclusive_cases > 0.02 * max(1, len(cases)):
         run.inconclusive(f"{run.inconclusive_cases} of {len(cases)} cases inconclusive")
 
@@ -651,8 +673,10 @@ def _count_message(run, spec, truth, r):
         if "error" in d:
             run.count("direct_extraction_errors")
     for f in spec["features"]:
-        if f.startswith("subj:"):
-            run.count("subject_charset_" + f.rsplit(":", 1)[-1])
+        if f.startswith("subj:") and f.rsplit(":", 1)[-1] in G.CHARSETS + ["ascii"]:
+            run.count("subject_charset_" + f.rsplit(":", 1)[-1].replace("us-ascii", "ascii"))
+        elif f.startswith("name:nonascii"):
+            run.count("display_name_charset_" + f.rsplit(":", 1)[-1])
         elif f.startswith("date:"):
             run.count("date_style_" + f[5:])
         elif f.startswith("struct:") and not f.startswith("struct:related"):
